@@ -56,7 +56,11 @@ static inline void xv_xpoll_havoc(void)
 /* witness: when the table is not full, slot xv_w is free (num_fd_regs counts the used slots, so one exists) */
 #define XP_FREE_WITNESS(x) ((x)->num_fd_regs < (x)->fd_regs_capacity ==> (XP_W_IN(x) && (x)->fd_regs[xv_w].fd == -1))
 /* descriptor fd is in no slot (needed at the slot find_fd WOULD return: constant-bound quantifier) */
+#ifdef XP_NOQ
+#define XP_ABSENT(x, d) 1
+#else
 #define XP_ABSENT(x, d) __CPROVER_forall { int q_; (0 <= q_ && q_ < XP_CAP_MAX) ==> (q_ < (x)->fd_regs_capacity ==> (x)->fd_regs[q_].fd != (d)) }
+#endif
 
 /* ---- the socket's epoll instance and the ghost interest list ------------------------------------------------------ */
 #define XP_EPFD_OK(x) ((x)->epoll_fd == xv_epfd && XV_FD_OURS(xv_epfd) && !xv_evfd_readable[xv_epfd])
